@@ -17,6 +17,7 @@ type ForInfo struct {
 	EquBetweenBlocks, LabelledBodyStartsWithBareFor, ChainedEqu     bool
 	EquInsideBlock, LabelledBodyStartsWithSilentFor, EmptyBody      bool
 	LabelInsideBody, EquTwoLevelsDeep, EquByCounter                 bool
+	LabelsInDeadBlock                                               bool
 }
 
 type forGen struct {
@@ -29,6 +30,7 @@ type forGen struct {
 	nCounter   int
 	nBlock     int
 	nBodyLab   int
+	nDead      int
 	nestedEqus []rc.Item // EQU definitions still to be placed inside a body that is written out once
 	topLabs    []string  // instruction labels outside blocks
 	blkLabs    []string  // block labels (all, known up front)
@@ -164,6 +166,8 @@ func (g *forGen) block(depth int, counters []string, budget int, mayLabel bool, 
 	per := 0
 	if v > 0 {
 		per = (budget - 1) / int(v)
+	} else {
+		per = 3 // what stands inside a block that is never written out costs no expansion
 	}
 	nBody := rapid.IntRange(1, 3).Draw(t, "nbody")
 	if len(labels) == 0 && Rare(t, "emptybody", 4) {
@@ -195,6 +199,15 @@ func (g *forGen) block(depth int, counters []string, budget int, mayLabel bool, 
 					ilabs = []string{g.blkLabs[g.nBlock]}
 					g.nBlock++
 				}
+				if v == 0 && rapid.Bool().Draw(t, "deadlab") {
+					// inside a block that is never written out labels define nothing: any number of them
+					// may stand in front of a nested block (nothing refers to them)
+					for n := rapid.IntRange(1, 2).Draw(t, "ndeadlab"); n > 0; n-- {
+						ilabs = append(ilabs, fmt.Sprintf("Z%d", g.nDead))
+						g.nDead++
+					}
+					g.info.LabelsInDeadBlock = true
+				}
 				inner, n = g.block(depth+1, counters, per, mayLabel && v == 1, ilabs)
 			}
 			per -= n
@@ -209,6 +222,10 @@ func (g *forGen) block(depth int, counters []string, budget int, mayLabel bool, 
 				ilabs = []string{name}
 				g.topLabs = append(g.topLabs, name) // later operands may refer to it
 				g.info.LabelInsideBody = true
+			}
+			if v == 0 && rapid.IntRange(0, 2).Draw(t, "deadinstrlab") == 0 {
+				ilabs = append(ilabs, fmt.Sprintf("Z%d", g.nDead))
+				g.nDead++
 			}
 			it.Body = append(it.Body, g.instr(counters, ilabs))
 		}
